@@ -38,6 +38,7 @@ U24 = Fr(1, 2 ** 24)
 
 # ------------------------------------------------------------------------------------------------
 # builds
+@locked_build
 def build_model():
     """like common.build_extracted("fit") but links zarith (common.py must not be edited)"""
     gen = os.path.join(EXTRACT, "gen")
